@@ -476,20 +476,66 @@ fn c14_theta_unknown_version() {
 #[kani::stub(crate::theta::bit_pack::unpack_bits_block, model_unpack_block)]
 #[kani::stub(alloc::vec::Vec::with_capacity, crate::verif_kani_common::stub_with_capacity)]
 fn c14_theta_v4_any_bytes() {
+    theta_v4_any_bytes_case(None);
+}
+
+/// `shape` = Some((entry_bits, count, preLongs)): those header fields (and the count-byte count 1) as literals -
+/// the block and tail buffers are then allocated with concrete sizes; theta, flags, preLongs, seed hash and
+/// the whole payload stay symbolic
+fn theta_v4_any_bytes_case(shape: Option<(u8, u8, u8)>) {
     let mut img: [u8; 48] = kani::any();
     let len: usize = 48;
     img[1] = 4;
+    if let Some((bits, count, pre)) = shape {
+        img[0] = pre;
+        img[3] = bits;
+        img[4] = 1;
+        if pre == 2 {
+            img[16] = count;
+        } else {
+            img[8] = count;
+        }
+    }
     let r = CompactThetaSketch::deserialize(&img[..len]);
     kani::cover!(r.is_ok());
     kani::cover!(r.is_err());
     if let Ok(g) = r {
-        kani::cover!(g.entries.len() == 1);
+        kani::cover!(g.entries.len() >= 1);
         let _ = g.estimate();
         core::mem::forget(g);
     } else {
         core::mem::forget(r);
     }
 }
+
+macro_rules! theta_v4_any_bytes {
+    ($name:ident, $bits:expr, $count:expr, $pre:expr) => {
+        #[kani::proof]
+        #[kani::unwind(12)]
+        #[kani::stub(alloc::fmt::format, stub_format)]
+        #[kani::stub(alloc::vec::Vec::with_capacity, crate::verif_kani_common::stub_with_capacity)]
+        #[kani::stub(crate::theta::bit_pack::unpack_bits_block, model_unpack_block)]
+        fn $name() {
+            theta_v4_any_bytes_case(Some(($bits, $count, $pre)));
+        }
+    };
+}
+
+//@ family: theta_v4_any_bytes
+//@ props: C14
+//@ tier: thorough
+//@ timeout: 2400
+//@ functions: theta::CompactThetaSketch::deserialize
+//@ functions: theta::CompactThetaSketch::deserialize_v4
+//@ functions: theta::bit_pack::BitUnpacker::unpack_value
+//@ unwind: 12
+//@ stubs: alloc::fmt::format -> empty string; Vec::with_capacity -> empty vector; unpack_bits_block -> model that fails where the real one panics and returns arbitrary deltas
+//@ bounds: every 48-byte string with serial version 4 whose entry width (@3), count-byte count (@4 = 1) and entry count are the literals of the instance: (63 bits, 3 entries: three deltas whose sum can overflow), (1 bit, 9 entries: one block and a tail), (13 bits, 2 entries); preLongs (1: exact, 2: with theta) literal per instance; theta, flags, seed hash and the payload symbolic
+//@ desc: deserialize returns Ok or Err without panic (no shift overflow, no assertion in the unpackers, no add overflow on the deltas, theta validated) for every such v4 byte string; an Ok value can be queried
+theta_v4_any_bytes!(c14_theta_v4_any_bytes_63_bits_3_entries, 63, 3, 2); //@ tier: quick
+theta_v4_any_bytes!(c14_theta_v4_any_bytes_1_bit_9_entries, 1, 9, 1); //@ tier: quick
+theta_v4_any_bytes!(c14_theta_v4_any_bytes_13_bits_2_entries, 13, 2, 2);
+//@ endfamily: x
 
 /// spec encoder for the legacy versions: v1 (3 preLongs always), v2 (1/2/3 preLongs)
 fn put_u64(b: &mut [u8], o: usize, v: u64) {
